@@ -111,6 +111,26 @@ class Discard(Exception):
     pass
 
 
+def _canon(x, _d=0):
+    """The interpreter's own representation normaliser (vyxalify: float -> exact rational, ...) applied to every
+    scalar of a result, at any depth.  Both sides of the comparison go through it, so that whether an implementation
+    normalises items while vectorising (the pinned tree does, through LazyList) or leaves that to later is not an issue;
+    a Python bool is left alone (see scalar_result)."""
+    if isinstance(x, (list, harness.LazyList)) and _d < 40:
+        out = []
+        for i, y in enumerate(x):
+            out.append(_canon(y, _d + 1))
+            if i > 3000:
+                break
+        return out
+    if isinstance(x, bool):
+        return x
+    try:
+        return harness.vyxal.helpers.vyxalify(x)
+    except Exception:  # noqa: BLE001
+        return x
+
+
 def is_list(spec):
     return isinstance(spec, (list, tuple)) and spec and spec[0] in ("l", "z")
 
@@ -217,7 +237,7 @@ def check(op, specs, alias=0):
                 return ("discard", "making the view")
             vals[1 - b] = made[0]
         st_ = run_el(op, vals)
-        got = [norm(x, cap=2000) for x in st_]
+        got = [norm(_canon(x), cap=2000) for x in st_]
     except (harness.FuelExhausted, harness.Inconclusive):
         return ("discard", "vectorised call ran out of budget")
     except Exception as e:  # noqa: BLE001
